@@ -119,7 +119,7 @@ def gen(rng):
                     ob.pop("stdev", None)
                     ob["dist"] = round(rng.uniform(0.1, 3.0), 3)
     if dim != 1:
-        conv = rng.choice(["ne-left", "ne-left", "ne-right", "sw-left", "en-left", "nw-left"])
+        conv = rng.choice(["ne-left", "ne-right", "ne-right", "sw-left", "en-left", "nw-left", "nw-left"])
         if conv != "ne-left":
             from checks import c07
             if conv == "ne-right":
@@ -154,7 +154,7 @@ def gen(rng):
 def run(ctx):
     ctx.check_proofs()
     bdir = enet.binaries(ctx)
-    n = 12 if ctx.quick else 100
+    n = 20 if ctx.quick else 150
     bad = 0
     for t in range(n):
         net, truth, meta = gen(ctx.rng)
